@@ -355,6 +355,8 @@ def configs(tier, small=False):
     from mc.props import c07, c08, c09, c14
     out = []
     for sh in c07.shards(tier):
+        if sh.get('early'):
+            continue            # simulator life-cycle variants: C07 only
         for c in c07.expand(sh):
             out.append(('c07', c))
     for c in c08._configs(tier):
